@@ -289,10 +289,15 @@ def run(prop, tier):
     res = C.Result(prop, tier)
     proof = C.proof_step(["Props/%s.v" % prop])
     proof["trusted"] = [
-        "model IO/Reader.v written by hand from util.py (_Recorder, _Limiter, _FixedSizeAudioReader, _OverlapAudioReader, AudioReader), at whole-sample granularity; tied by correspondence (exhaustive small grid), not by translation; byte arithmetic of the wrappers is exercised with multi-byte multi-channel audio",
+        "model IO/Reader.v written by hand from util.py (_Recorder, _Limiter, _FixedSizeAudioReader, _OverlapAudioReader, AudioReader), at whole-sample granularity; the constructor arithmetic (AudioReader.__init__ with the constructors of _Limiter, _FixedSizeAudioReader, _OverlapAudioReader: round(max_read*sr), the sign / hop / one-sample checks, int(block_dur*sr), int(hop_dur*sr), the fixed-or-overlap choice) is sliced and translated from /repo's util.py on every run and proved equal to Reader.reader_params for all float inputs (harness/py2coq/misc.py group reader, TieReader.v); the read / rewind / data behaviour of the wrappers is tied by correspondence (exhaustive small grid); byte arithmetic of the wrappers is exercised with multi-byte multi-channel audio",
         "extraction (ExtrOcamlBasic only) + OCaml driver, cross-checked by vm_compute on a sample",
         "Flocq binary64 for block_dur*rate, hop_dur*rate, round(max_read*rate); file system and wave module exercised, not modelled",
     ]
+    from ..py2coq import misctie
+    tie = misctie.tie_group("reader")
+    proof["tie_obligations"] = tie["obligations"]
+    if not tie["ok"]:
+        proof["undischarged"] = tie["obligations"]
     C.import_auditok()
     quick = tier == "quick"
     r = C.rng(prop)
@@ -396,9 +401,12 @@ def run(prop, tier):
                          "rule": "exhaustive grid: source length 0..%d samples x block 1..%d x hop in {None, 1..block} x max_read in %r x record on/off x formats %r over buffer / raw-file / wav-file sources, with %s; non-trivial = distinct configuration+history returning at least one block" % (
                              maxn, maxW, mr_grid, FORMATS, "reads to exhaustion + 3 reads past the end" if prop == "C10" else "histories read^k rewind data read^(k+1) rewind data read^2 for k from 0 to past the end (AudioReader(record=True) and Recorder)"),
                          "samples": [{"case": meta[idx[len(idx) // 3]], "model_outputs": mouts[len(idx) // 3]}, {"case": meta[idx[-9]], "model_outputs": mouts[-9]}],
-                         "exhaustive": True, "vm_compute_crosschecked": vm, "correspondence_mismatches": len(mism)})
+                         "exhaustive": True, "vm_compute_crosschecked": vm, "correspondence_mismatches": len(mism), "tie_translation": tie["detail"][:300]})
     if viol:
         res.add_violation(viol["what"], viol)
+    elif not tie["ok"] and not mism:
+        res.add_violation("translation tie broken: %s -- the statement itself held on all %d real runs" % (tie["detail"][:700], len(cases)),
+                          {"no_longer_checks": "TieReader.v tie_reader_params (constructor arithmetic of the reader stack)", "tie_detail": tie["detail"]}, no_input=True)
     elif mism:
         m, i, o = mism[0]
         res.add_violation("model and implementation differ on %r (impl %r, model %r); the statement's own oracle found no failing input" % (m, i, o),
